@@ -47,8 +47,10 @@ ASSUMPTIONS = ['oracle: sphere.sep separations; polygon interior = same side of 
                'caps / circumscribed caps grown by 3 pixel sizes (upper), both estimated by a seeded Monte-Carlo '
                'sample of 300000 points uniform in a bounding cap; the bounds are widened by 6 binomial standard '
                'deviations (false-alarm probability < 1e-8 per case) and the estimate is reported with its error',
-               'integer-typed coordinates are exercised in DEGREES only (degin=True): integer radians are not a '
-               'meaningful way to address the sky and are outside the workload']
+               'integer-typed coordinates: whole degrees on and around every shape (degin=True) and the 21 whole-radian '
+               'positions ra 0..6, dec -1..1 (degin=False); integer-typed constructor arguments are whole radians '
+               '(circle centres, radius 1 rad, triangle vertices); int8/int16 arrays are not used because numpy itself '
+               'converts them to float16/float32 radians']
 MIN_REACH = {'regions:Region.add_circles': 1, 'regions:Region.add_poly': 1, 'regions:Region.sky_within': 1,
              'regions:Region.get_area': 1}
 MIN_COUNTERS = {'circle_probe_inside_judged': 2000, 'circle_probe_far_judged': 2000,
@@ -56,6 +58,7 @@ MIN_COUNTERS = {'circle_probe_inside_judged': 2000, 'circle_probe_far_judged': 2
                 'stored_pixels_examined': 1000, 'area_checked': 10, 'scalar_calls': 100,
                 'shapes_at_pole': 2, 'shapes_across_ra0': 2, 'nonfinite_probes': 10,
                 'integer_probe_inside_judged': 300, 'integer_probe_far_judged': 300, 'integer_spellings_compared': 2000,
+                'integer_radian_spellings_compared': 2000, 'integer_radian_probe_inside_judged': 100, 'integer_constructor_calls': 10,
                 'builds_area_before_query': 30, 'builds_with_overlap': 15, 'build_probe_inside_judged': 2000}
 
 EPS_RAD = 1e-9                      # undetermined band around a boundary (statement: DESIGN C09 'O')
@@ -120,6 +123,24 @@ def cases(seed, tier):
                                           (200.0, -90.0, 10.0, 5), (90.0, 30.0, 1.5, 8), (300.0, 60.0, 25.0, 4))):
         out.append({'kind': 'circle', 'maxdepth': md, 'depth': None, 'ra': math.radians(ra), 'dec': math.radians(dec),
                     'r': math.radians(r), 'style': 'scalar', 'n': 1000, 'seed': ['t', 'whole', i]})
+    # whole-radian positions: float-built shapes centred on them (integer-typed radian probes fall inside), and the
+    # same shapes built from integer-typed arguments
+    k = 0
+    for (ra, dec) in ((0, 0), (1, 0), (3, 1), (5, -1), (6, 1), (2, 0)):
+        for r, md in ((1, 4), (0.05, 7)):
+            for style in ('scalar', 'int_scalar', 'int_list', 'int_array'):
+                if style != 'scalar' and (k + len(style)) % 2 and r != 1:
+                    continue
+                out.append({'kind': 'circle', 'maxdepth': md, 'depth': None, 'ra': ra, 'dec': dec, 'r': r,
+                            'style': style, 'n': 1000, 'seed': ['t', 'wholerad', ra, dec, r, style]})
+            k += 1
+    out.append({'kind': 'circles', 'maxdepth': 5, 'depth': None, 'ra': [0, 2, 4], 'dec': [0, 1, -1], 'r': [0.2, 0.3, 0.25],
+                'style': 'int_list', 'n': 900, 'seed': ['t', 'wholerad', 'multi']})
+    for i, tri in enumerate(([[0, 0], [1, 0], [0, 1]], [[3, -1], [4, -1], [4, 0]], [[6, 1], [5, 1], [5, 0]],
+                             [[2, 0], [3, 1], [2, 1]])):
+        for cont in ('list', 'array'):
+            out.append({'kind': 'poly', 'maxdepth': 5, 'depth': None, 'vertices_int_rad': tri, 'vertex_container': cont,
+                        'n': 1500, 'seed': ['t', 'polyint', i, cont]})
     # multi-step builds: a second call that overlaps pixels already promoted by the first; area read before any query
     tb = [
         (9, [(150.0, -30.0, 4.0), (151.0, -29.5, 3.0)]), (9, [(151.0, -29.5, 3.0), (150.0, -30.0, 4.0)]),
@@ -324,41 +345,59 @@ def _whole_degree_probes(rng, centres, radii_deg, pix, n=260):
     return np.concatenate(ras).astype(np.int64), np.concatenate(decs).astype(np.int64)
 
 
-def _query_integers(o, reg, ira, idec, rng):
-    """the same whole-degree positions through every integer-typed spelling of sky_within(degin=True); every spelling
-    must give the answer of the float spelling.  Returns that (float spelling) answer or None."""
+MECH_INT = 'sky2ang-integer-input-truncated'
+
+
+def _mech_integer(witness):
+    """mechanism key from the witness: the coordinates were handed over integer-typed (ra AND dec) in RADIANS, the
+    case in which sky2ang keeps an integer array and truncates pi/2 - dec (integer degrees go through np.radians)"""
+    sp = str(witness.get('spelling', '')) + ' ' + str(witness.get('add_circles_style', '')) + \
+        ' ' + str(witness.get('add_poly_style', ''))
+    all_int = 'int' in sp and 'float' not in sp
+    return MECH_INT if (all_int and witness.get('units') == 'radians') else None
+
+
+def _query_integers(o, reg, ira, idec, rng, degin=True):
+    """the same whole-number positions through every integer-typed spelling of sky_within; every spelling must give
+    the answer of the float spelling (a difference is judged only away from HEALPix cell edges).
+    Returns that (float spelling) answer or None."""
+    units = 'degrees' if degin else 'radians'
     fra, fdec = ira.astype(float), idec.astype(float)
-    ok, ref = _call(o, reg.sky_within, 'sky_within(float whole degrees, degin=True)', fra, fdec, degin=True)
+    ok, ref = _call(o, reg.sky_within, 'sky_within(float whole %s, degin=%s)' % (units, degin), fra, fdec, degin=degin)
     if not ok:
         return None
     ref = np.asarray(ref)
     o.n_eval += len(ira)
+    dra, ddec = (fra, fdec) if degin else (np.degrees(fra) % 360.0, np.degrees(fdec))
 
     def cmp(tag, got, idx):
         got = np.asarray(got)
-        o.count('integer_spellings_compared', len(idx))
+        o.count('integer_spellings_compared' if degin else 'integer_radian_spellings_compared', len(idx))
         o.n_eval += len(idx)
         o.see('integer_spelling', tag)
         if got.shape != (len(idx),) or got.dtype != bool:
             o.violate('result_shape', {'spelling': tag, 'shape': list(got.shape), 'dtype': str(got.dtype)})
             return
         bad = np.flatnonzero(got != ref[idx])
-        for k in bad[:3]:
-            i = idx[k]
-            o.violate('integer_vs_float_degrees', {'spelling': tag, 'ra_deg': int(ira[i]), 'dec_deg': int(idec[i]),
-                                                   'integer_answer': bool(got[k]), 'float_answer': bool(ref[i]),
-                                                   'n_differ': int(len(bad)), 'n': int(len(idx))})
+        if len(bad):
+            st = healmember.stable_cell(dra[idx[bad]], ddec[idx[bad]], reg.maxdepth)[1]
+            o.count('undetermined', int((~st).sum()))
+            for k in bad[st][:3]:
+                i = idx[k]
+                w = {'spelling': tag, 'units': units, 'ra': int(ira[i]), 'dec': int(idec[i]),
+                     'integer_answer': bool(got[k]), 'float_answer': bool(ref[i]),
+                     'n_differ': int(st.sum()), 'n': int(len(idx))}
+                o.violate('integer_vs_float_' + units, w, _mech_integer(w))
 
     allidx = np.arange(len(ira))
     for tag, a, d in (('int64 arrays', ira.astype(np.int64), idec.astype(np.int64)),
                       ('int32 arrays', ira.astype(np.int32), idec.astype(np.int32)),
-                      ('int16 ra / int8 dec arrays', ira.astype(np.int16), idec.astype(np.int8)),
                       ('lists of python ints', [int(x) for x in ira], [int(x) for x in idec]),
                       ('tuples of python ints', tuple(int(x) for x in ira), tuple(int(x) for x in idec)),
                       ('list of numpy int64 scalars', [np.int64(x) for x in ira], [np.int64(x) for x in idec]),
                       ('int ra array / float dec array', ira.astype(np.int64), fdec),
                       ('float ra array / int dec array', fra, idec.astype(np.int64))):
-        ok, got = _call(o, reg.sky_within, 'sky_within(%s, degin=True)' % tag, a, d, degin=True)
+        ok, got = _call(o, reg.sky_within, 'sky_within(%s, degin=%s)' % (tag, degin), a, d, degin=degin)
         if ok:
             cmp(tag, got, allidx)
     # scalars: prefer the positions the float spelling reports inside, they are the informative ones
@@ -369,7 +408,7 @@ def _query_integers(o, reg, ira, idec, rng):
         for tag, a, d in (('python int scalars', int(ira[i]), int(idec[i])),
                           ('numpy int64 scalars', np.int64(ira[i]), np.int64(idec[i])),
                           ('numpy int32 scalars', np.int32(ira[i]), np.int32(idec[i]))):
-            ok, got = _call(o, reg.sky_within, 'sky_within(%s, degin=True)' % tag, a, d, degin=True)
+            ok, got = _call(o, reg.sky_within, 'sky_within(%s, degin=%s)' % (tag, degin), a, d, degin=degin)
             if ok:
                 cmp(tag, np.asarray(got).ravel(), np.array([i]))
     return ref
@@ -397,7 +436,7 @@ def _pixel_outer_points(level, ids, step=2, pull=1e-3):
     return sphere.radec(p)
 
 
-def _examine_pixels(o, reg, centres, radii_deg, pix, tag, limit=400000):
+def _examine_pixels(o, reg, centres, radii_deg, pix, tag, limit=400000, mech=None):
     """every stored pixel: its outline must lie within radius + 3 pixel sizes of (one of) the centre(s)"""
     worst = -np.inf
     n = 0
@@ -417,7 +456,7 @@ def _examine_pixels(o, reg, centres, radii_deg, pix, tag, limit=400000):
             for i, j in bad[:3]:
                 o.violate(tag + '_stored_pixel_far', {
                     'level': level, 'pixel': int(chunk[i]), 'point_inside_pixel_deg': [ra[i, j], dec[i, j]],
-                    'excess_over_radius_in_pixel_sizes': float(excess[i, j] / pix), 'allowed': BAND})
+                    'excess_over_radius_in_pixel_sizes': float(excess[i, j] / pix), 'allowed': BAND}, mech)
     o.count('stored_pixels_examined', n)
     o.n_eval += n
     if n:
@@ -429,7 +468,7 @@ def _cap_sr(r_deg):
     return SPHERE_SR if r_deg >= 180 else 2 * math.pi * (1 - math.cos(math.radians(r_deg)))
 
 
-def _judge(o, tag, res, model_in, must_in, must_out, free, ra, dec, stable_fn, extra):
+def _judge(o, tag, res, model_in, must_in, must_out, free, ra, dec, stable_fn, extra, mech=None):
     """res: subject answer; model_in: probe's own cell is in the stored pixel set"""
     o.count(tag + '_probe_inside_judged', int(must_in.sum()))
     o.count(tag + '_probe_far_judged', int(must_out.sum()))
@@ -437,20 +476,20 @@ def _judge(o, tag, res, model_in, must_in, must_out, free, ra, dec, stable_fn, e
     o.count('undetermined', int((~must_in & ~must_out & ~free).sum()))
     o.count(tag + '_free_band_reported_inside', int((free & res).sum()))
     for i in np.flatnonzero(must_in & ~res)[:3]:
-        o.violate(tag + '_interior_reported_outside', dict(extra(i), probe_deg=[ra[i], dec[i]]))
+        o.violate(tag + '_interior_reported_outside', dict(extra(i), probe_deg=[ra[i], dec[i]]), mech)
     for i in np.flatnonzero(must_out & res)[:3]:
-        o.violate(tag + '_far_reported_inside', dict(extra(i), probe_deg=[ra[i], dec[i]]))
+        o.violate(tag + '_far_reported_inside', dict(extra(i), probe_deg=[ra[i], dec[i]]), mech)
     for i in np.flatnonzero(must_in & ~model_in)[:3]:
-        o.violate(tag + '_interior_not_in_stored_pixels', dict(extra(i), probe_deg=[ra[i], dec[i]]))
+        o.violate(tag + '_interior_not_in_stored_pixels', dict(extra(i), probe_deg=[ra[i], dec[i]]), mech)
     for i in np.flatnonzero(must_out & model_in)[:3]:
-        o.violate(tag + '_far_in_stored_pixels', dict(extra(i), probe_deg=[ra[i], dec[i]]))
+        o.violate(tag + '_far_in_stored_pixels', dict(extra(i), probe_deg=[ra[i], dec[i]]), mech)
     dis = np.flatnonzero(res != model_in)
     if len(dis):
         st = stable_fn(dis)
         o.count('undetermined', int((~st).sum()))
         for i in dis[st][:3]:
             o.violate('sky_within_vs_stored_pixels', dict(extra(i), probe_deg=[ra[i], dec[i]],
-                                                          sky_within=bool(res[i]), cell_in_pixeldict=bool(model_in[i])))
+                                                          sky_within=bool(res[i]), cell_in_pixeldict=bool(model_in[i])), mech)
     o.count('sky_within_vs_stored_pixels_compared', len(res))
 
 
@@ -524,6 +563,21 @@ def _integer_section(o, reg, shapes, pix, md, iv, rng):
     _judge(o, 'integer', ref, model_in, must_in, must_out, free, fra, fdec,
            lambda idx: healmember.stable_cell(fra[idx], fdec[idx], md)[1], extra)
     o.n_nontrivial += n_distinct_rows(fra[must_in | must_out], fdec[must_in | must_out])
+    # whole radians: every (ra, dec) in 0..6 x -1..1, integer-typed, degin=False
+    A, D = np.meshgrid(np.arange(0, 7), np.arange(-1, 2))
+    ira, idec = A.ravel().astype(np.int64), D.ravel().astype(np.int64)
+    ref = _query_integers(o, reg, ira, idec, rng, degin=False)
+    if ref is None:
+        return
+    dra, ddec = np.degrees(ira.astype(float)) % 360.0, np.degrees(idec.astype(float))
+    inner, outer, must_in, must_out, free = _classify(shapes, dra, ddec, pix)
+    model_in = healmember.member(iv, healmember.cell(dra, ddec, md))
+
+    def extra_r(i):
+        return {'shapes': summ, 'pixel_size_deg': pix, 'maxdepth': md, 'whole_radian_position': [int(ira[i]), int(idec[i])],
+                'inside_margin_deg': float(inner[i]), 'distance_beyond_circle_deg': float(outer[i])}
+    _judge(o, 'integer_radian', ref, model_in, must_in, must_out, free, dra, ddec,
+           lambda idx: healmember.stable_cell(dra[idx], ddec[idx], md)[1], extra_r)
 
 
 # ----------------------------------------------------------------------------- multi-step builds
@@ -715,7 +769,17 @@ def _run_circles(o, reg, case, rng, md, dp, pix):
     rs = case['r'] if multi else [case['r']]
     style = case['style']
     o.see('add_circles_style', style)
-    if style == 'scalar':
+    if style.startswith('int'):
+        # whole radians handed over integer-typed (the radius too when it is a whole number)
+        rr = [int(r) if float(r).is_integer() else float(r) for r in rs]
+        if style == 'int_scalar':
+            args = (int(ras[0]), int(decs[0]), rr[0])
+        elif style == 'int_list':
+            args = ([int(x) for x in ras], [int(x) for x in decs], rr)
+        else:
+            args = (np.array(ras, dtype=np.int64), np.array(decs, dtype=np.int64), np.array(rr))
+        o.count('integer_constructor_calls')
+    elif style == 'scalar':
         args = (float(ras[0]), float(decs[0]), float(rs[0]))
     elif style == 'list':
         args = (list(ras), list(decs), list(rs))
@@ -746,12 +810,14 @@ def _run_circles(o, reg, case, rng, md, dp, pix):
                 o.worst('area_position_in_band_neg_min', -(a_sr - lo) / (hi - lo))
             if not (lo * (1 - 1e-12) <= a_sr <= hi * (1 + 1e-12)):
                 o.violate('area_outside_caps', {'area_sr': a_sr, 'cap_r_sr': lo, 'cap_r_plus_3pix_sr': hi,
-                                                'degrees': degrees, 'r_deg': rdeg[0], 'pix_deg': pix})
+                                                'degrees': degrees, 'r_deg': rdeg[0], 'pix_deg': pix,
+                                                'add_circles_style': style},
+                          _mech_integer({'add_circles_style': style, 'units': 'radians'}))
             # and the area must be that of the stored pixels
             want = healmember.n_deepest(iv) * SPHERE_SR / (12 * 4 ** md)
             if abs(a_sr - want) > 1e-9 * max(want, 1e-300):
                 o.violate('area_vs_stored_pixels', {'area_sr': a_sr, 'stored_pixels_sr': want})
-    _examine_pixels(o, reg, cen, rdeg, pix, 'circle')
+    _examine_pixels(o, reg, cen, rdeg, pix, 'circle', mech=_mech_integer({'add_circles_style': style, 'units': 'radians'}))
     # probes
     n_each = case['n'] // len(cen)
     pra, pdec = [], []
@@ -776,9 +842,11 @@ def _run_circles(o, reg, case, rng, md, dp, pix):
 
     def extra(i):
         return {'centres_deg': cen, 'radii_deg': rdeg, 'pixel_size_deg': pix, 'maxdepth': md, 'depth': dp,
-                'distance_minus_radius_deg': float(excess[i])}
+                'distance_minus_radius_deg': float(excess[i]), 'add_circles_style': style,
+                'add_circles_args_radians': [ras, decs, rs]}
     _judge(o, 'circle', res, model_in, must_in, must_out, free, pra, pdec,
-           lambda idx: healmember.stable_cell(pra[idx], pdec[idx], md)[1], extra)
+           lambda idx: healmember.stable_cell(pra[idx], pdec[idx], md)[1], extra,
+           _mech_integer({'add_circles_style': style, 'units': 'radians'}))
     o.n_nontrivial += n_distinct_rows(pra[must_in | must_out], pdec[must_in | must_out])
     _integer_section(o, reg, [_circle_shape(a, d, r) for (a, d), r in zip(cen, rdeg)], pix, md, iv, rng)
     o.sample = {'centres_deg': cen, 'radii_deg': rdeg, 'maxdepth': md, 'depth': dp, 'pixel_size_deg': pix,
@@ -788,20 +856,40 @@ def _run_circles(o, reg, case, rng, md, dp, pix):
 
 
 def _run_poly(o, reg, case, rng, md, dp, pix):
-    ra0, dec0, R = math.degrees(case['ra']) % 360.0, math.degrees(case['dec']), math.degrees(case['R'])
-    ang = list(case['angles'])
-    if case['orient'] < 0:
-        ang = ang[::-1]
-    vra, vdec = sphere.destination(ra0, dec0, np.full(len(ang), R), np.array(ang))
-    positions = [[math.radians(a), math.radians(d)] for a, d in zip(vra, vdec)]
+    pstyle = 'float'
+    if 'vertices_int_rad' in case:
+        # a triangle given by whole-radian vertices, handed over as python ints / an int array; its circumscribed
+        # circle is the small circle through the three vertices
+        vint = [[int(a), int(d)] for a, d in case['vertices_int_rad']]
+        vra, vdec = np.degrees([v[0] for v in vint]) % 360.0, np.degrees([v[1] for v in vint])
+        positions = vint if case.get('vertex_container') != 'array' else np.array(vint, dtype=np.int64)
+        pstyle = 'int ' + str(case.get('vertex_container', 'list'))
+        o.count('integer_constructor_calls')
+        v = sphere.vec(vra, vdec)
+        axis = np.cross(v[1] - v[0], v[2] - v[0])
+        axis /= np.linalg.norm(axis)
+        if axis @ v[0] < 0:
+            axis = -axis
+        ra0, dec0 = (float(x) for x in sphere.radec(axis))
+        R = float(sphere.sep(ra0, dec0, vra, vdec).max())
+        ang = [0.0] * len(vint)
+    else:
+        ra0, dec0, R = math.degrees(case['ra']) % 360.0, math.degrees(case['dec']), math.degrees(case['R'])
+        ang = list(case['angles'])
+        if case['orient'] < 0:
+            ang = ang[::-1]
+        vra, vdec = sphere.destination(ra0, dec0, np.full(len(ang), R), np.array(ang))
+        positions = [[math.radians(a), math.radians(d)] for a, d in zip(vra, vdec)]
+    o.see('add_poly_style', pstyle)
+    pmech = _mech_integer({'add_poly_style': pstyle, 'units': 'radians'})
     o.see('polygon_vertices', len(ang))
-    o.see('polygon_orientation', case['orient'])
+    o.see('polygon_orientation', case.get('orient', 0))
     kw = {} if dp is None else {'depth': dp}
     ok, _ = _call(o, reg.add_poly, 'add_poly(%d vertices, depth=%r)' % (len(ang), dp), positions, **kw)
     if not ok:
         return o.result()
     # the circumscribed circle as actually realised by the vertex coordinates handed over
-    vv = sphere.vec(np.degrees([p[0] for p in positions]), np.degrees([p[1] for p in positions]))
+    vv = sphere.vec(vra, vdec)
     Rv = sphere.sep(ra0, dec0, vra, vdec)
     Rmax = float(Rv.max())
     if abs(dec0) + R > 90:
@@ -816,7 +904,7 @@ def _run_poly(o, reg, case, rng, md, dp, pix):
         o.n_eval += 1
         if abs(area - want) > 1e-9 * max(want, 1e-300):
             o.violate('area_vs_stored_pixels', {'area_sqdeg': area, 'stored_pixels_sqdeg': want})
-    _examine_pixels(o, reg, [(ra0, dec0)], [Rmax], pix, 'poly')
+    _examine_pixels(o, reg, [(ra0, dec0)], [Rmax], pix, 'poly', mech=pmech)
     # probes: around the circumcircle, plus points built inside the polygon (convex combinations of vertices)
     pra, pdec = _probes_about(rng, ra0, dec0, R, pix, case['n'] - 600)
     w = rng.dirichlet(np.full(len(ang), 0.6), 400)
@@ -850,10 +938,10 @@ def _run_poly(o, reg, case, rng, md, dp, pix):
     def extra(i):
         return {'vertices_deg': [[float(a), float(d)] for a, d in zip(vra, vdec)], 'circumcentre_deg': [ra0, dec0],
                 'circumradius_deg': Rmax, 'pixel_size_deg': pix, 'maxdepth': md,
-                'min_signed_distance_from_edges_rad': float(hmin[i]),
+                'min_signed_distance_from_edges_rad': float(hmin[i]), 'add_poly_style': pstyle,
                 'distance_minus_circumradius_deg': float(excess[i])}
     _judge(o, 'poly', res, model_in, must_in, must_out, free, pra, pdec,
-           lambda idx: healmember.stable_cell(pra[idx], pdec[idx], md)[1], extra)
+           lambda idx: healmember.stable_cell(pra[idx], pdec[idx], md)[1], extra, pmech)
     o.n_nontrivial += n_distinct_rows(pra[must_in | must_out], pdec[must_in | must_out])
     _integer_section(o, reg, [_poly_shape(ra0, dec0, vra, vdec)], pix, md, iv, rng)
     o.sample = {'vertices_deg': [[float(a), float(d)] for a, d in zip(vra, vdec)], 'maxdepth': md,
